@@ -304,7 +304,7 @@ func init() {
 	names := []string{"Negate", "Abs", "BitNot", "Ones", "IntNegative", "Bool", "Not", "BoolCond", "WidthGadget", "WidthGadget2", "BoolCondNarrow", "Sub", "Mod",
 		"BitAnd", "BitOr", "BitXor", "RshA", "SignedMul", "SignedDiv", "SignedMod", "SignExtend", "MaskBits", "Eq", "Leu", "Lts", "Les"}
 	checks["C11"] = eng.Check{
-		Rule: "every exported gadget constructor of pkg/expr/exprtools (plus two compositions: a width gadget of a width gadget, and a narrowed value selected by a wider BoolCond), evaluated (1) on constants through the real ConstFold and (2) on register loads through the independent evaluator, against big-integer definitions of the documented functions: ALL 65536 operand pairs at width 1 (all 8 sign bits, all 0..8 mask counts, all shift amounts), boundary alphabets at widths 2,3,4,8,16 (SignedMul also 32,64,127) with operands of width w and — for the unsigned/bitwise gadgets — w-1 and w+1. Non-trivial = case inside the gadget's documented domain.",
+		Rule: "every exported gadget constructor of pkg/expr/exprtools (plus two compositions: a width gadget of a width gadget, and a narrowed value selected by a wider BoolCond), evaluated (1) on constants through the real ConstFold and (2) on register loads through the independent evaluator, against big-integer definitions of the documented functions: ALL 65536 operand pairs at width 1 (all 8 sign bits, all 0..8 mask counts, all shift amounts), boundary alphabets at widths 2,3,4,8,16 (SignedMul also 32,64,127) and, with operands of the gadget's own width, at 33 and 255 (thorough 32,33,64,128,255), with operands of width w and — for the unsigned/bitwise gadgets — w-1 and w+1. Non-trivial = case inside the gadget's documented domain.",
 		Assumptions: []string{
 			"signed gadgets (SignedMul/Div/Mod) are only judged with operands exactly w wide; SignExtend only with sign bit < 8w; MaskBits only with count <= 8w; BoolCond only with a condition not wider than w (documented preconditions)",
 			"IntNegative is judged as zero / non-zero",
@@ -379,6 +379,18 @@ func init() {
 					if g == "SignedMul" {
 						ws = append(ws, 127)
 					}
+				}
+				// far end of the width range (bit counts above 255 do not fit the 8-bit width type):
+				// operands of the gadget's own width only
+				big := []int{32, 33, 64, 128, 255}
+				if r.Quick() {
+					big = []int{33, 255}
+				}
+				for _, w := range big {
+					if g == "SignedMul" && w > 127 {
+						continue // documented limit of the gadget
+					}
+					jobs = append(jobs, job{g, w, w, w})
 				}
 				for _, w := range ws {
 					jobs = append(jobs, job{g, w, w, w})
